@@ -33,13 +33,22 @@ pub fn opt_vec_flatten<T>(o: &Option<Vec<T>>) -> (r: &[T])
     }
 }
 
-//@trusted T2 derive(PartialEq) on EncryptionCaps / ECCCurve compares values; Option::unwrap_or_default on Option<EncryptionCaps> yields the #[default] variant EncryptionCaps::None for None
+//@trusted T2 derive(PartialEq) on EncryptionCaps compares values; #[derive(Default)] with #[default] on EncryptionCaps::None makes None the default; Option::unwrap_or_default is `match o { Some(v) => v, None => Default::default() }` (std); the Default of KeyVersion is REAL code in the unit (types/packet.rs:441)
 impl vstd::std_specs::cmp::PartialEqSpecImpl for EncryptionCaps {
     open spec fn obeys_eq_spec() -> bool { true }
     open spec fn eq_spec(&self, o: &EncryptionCaps) -> bool { *self == *o }
 }
-pub fn caps_unwrap_or_default(o: Option<EncryptionCaps>) -> (r: EncryptionCaps)
-    ensures r == (match o { Some(c) => c, None => EncryptionCaps::None })
+/// std::default::Default as the unit sees it: the default value is a specified constant
+pub trait HasDefault: Sized {
+    spec fn spec_default() -> Self;
+    fn default() -> (r: Self) ensures r == Self::spec_default();
+}
+impl HasDefault for EncryptionCaps {
+    open spec fn spec_default() -> EncryptionCaps { EncryptionCaps::None }
+    fn default() -> (r: EncryptionCaps) { EncryptionCaps::None }
+}
+pub fn opt_unwrap_or_default<T: HasDefault>(o: Option<T>) -> (r: T)
+    ensures r == (match o { Some(v) => v, None => T::spec_default() })
 {
-    match o { Some(c) => c, None => EncryptionCaps::None }
+    match o { Some(v) => v, None => T::default() }
 }
